@@ -34,15 +34,28 @@ class ScriptedGenerator(gens.HarnessGenerator):
     def script(self, v):
         self.sh.script = v
 
+    def _scripted(self, size):
+        """the next scripted vector if the request is for exactly that many deviates; a request for another amount (deviates drawn
+        ahead in blocks ...) is served with ordinary deviates and leaves the script untouched - the probe then reports NotScriptable"""
+        if not self.sh.script:
+            return None
+        n = 1 if size is None else int(np.prod(size))
+        v = np.asarray(self.sh.script[0], float)
+        if v.size != n:
+            return None
+        self.sh.script.pop(0)
+        return v.reshape(size) if isinstance(size, tuple) and len(size) > 1 else v
+
     def normal(self, loc=0.0, scale=1.0, size=None):
-        if self.sh.script:
-            v = np.asarray(self.sh.script.pop(0), float)
+        v = self._scripted(size)
+        if v is not None:
             return loc + scale * v
         return super().normal(loc, scale, size)
 
     def standard_normal(self, size=None, *a, **k):
-        if self.sh.script and not a and not k:
-            return np.asarray(self.sh.script.pop(0), float)
+        v = None if (a or k) else self._scripted(size)
+        if v is not None:
+            return v
         return super().standard_normal(size, *a, **k)
 
 
